@@ -32,6 +32,19 @@ PROPS = {
           "oracle: nil error => result == value*1e8 exactly (math/big), canonical in-range strings with <=8 decimals are accepted. "
           "Non-trivial = text reaches the decoder's length accounting (accepted, or rejected-but-structurally-valid) / amount has a fraction or >=12 digits; distinct by text.",
           quick=(4, 6000), thorough=(16, 150000), timeout=(300, 2400)),
+ "C19": P("TestC19", "exploration",
+          "rapid generates histories of 1-5 sessions (build sync-version 0..4, or a pre-tracking build as a prefix; 0-6 blocks each) and 0-3 forks "
+          "(heights from 3 below the start to 3 above the tip, minimum versions 0..4) on top of the base {0,-1}; every session runs for real "
+          "(NewPegnetd start-up check + DBlockSync of empty blocks with PegnetdSyncVersion/Hardforks set; a pre-tracking build is emulated by "
+          "removing the version rows it would not have written). Oracle at every tracked start-up: refused iff the reference predicate over "
+          "the model map height->version says so. Thorough adds exhaustive small scope (<=3 sessions x <=3 blocks x versions {pre,0,1,2} x one fork "
+          "at every offset x minimum 0..2). Non-trivial = >=2 different versions synced blocks and a fork lies inside the synced range; distinct by case.",
+          quick=(4, 250), thorough=(16, 1500), timeout=(300, 3000)),
+ "C07": P("TestC07", "exploration",
+          "function level: (PIP-10 on/off, amount 0..2^63-1, four rates over 0..2^64-1, all boundary-biased; averages equal to / 10% around / independent of spot) "
+          "against a math/big oracle: result = floor(a*min(fs,fa)/max(ts,ta)) (floor(a*fs/ts) before PIP-10), error iff a rate (or with PIP-10 an average) "
+          "is zero or the quotient exceeds int64, and out*toSpot <= in*fromSpot. chain level: see evidence classes. Non-trivial = convertible case; distinct by tuple.",
+          quick=(4, 40), thorough=(16, 3000), timeout=(300, 2400)),
 }
 
 ALL = ["C%02d" % i for i in range(1, 21)]
@@ -43,6 +56,12 @@ TEXT = {
  "C20": {"technique": "property-based testing (rapid grammar mutation of batch JSON; differential against an independent strict acceptor + round trip; big-decimal oracle for amounts)",
          "level_text": "Exploration at function level: tens of thousands (quick) to millions (thorough) of generated batch texts and amount strings per run against explicit oracles.",
          "level_note": "Accepted means UnmarshalJSON+ValidData+int64 bound (the signature check is C05's). Key case is a don't-care (Go's decoder folds case; the statement lists duplicate/unknown keys). The empty amount string is outside the stated domain."},
+ "C19": {"technique": "property-based testing (rapid session histories executed for real) against a reference refusal predicate; exhaustive small scope in thorough",
+         "level_text": "Exploration: hundreds (quick) to tens of thousands (thorough, incl. an exhaustively enumerated small scope) of upgrade/downgrade histories executed through the real start-up path and block commits.",
+         "level_note": "Pre-tracking builds are emulated (version rows removed, fork check skipped) and only occur as a prefix of a history. Forks at or below the first synced height are a registered known finding and excluded from the search."},
+ "C07": {"technique": "property-based testing (rapid) with a math/big oracle for Convert; model-based chain check for execution height and rates used",
+         "level_text": "Exploration: 10^4-10^6 boundary-biased conversion tuples per run against an exact big-integer oracle, plus generated chains checked against the reference model for which block's rates a held conversion receives.",
+         "level_note": "Trusted: math/big. Chain level keeps the PIP-10 window free of ungraded heights (C09's known finding)."},
 }
 
 _BUILT = set(PROPS)
